@@ -39,10 +39,29 @@
    finished (C02), and one more depot visit leaves the reward alone (C04, walk_len_pad).  So C14_policy_rowwise is
    instantiated at the environment [restrict (hist (CVRP exact)) (dfun i 0 0 =? 0)] of Compose/EnvRestrict.v (state =
    action history) and the result is transported back along a simulation (Compose/PolicyOnCVRP.v, Section Sim): the
-   statements below speak about the plain model only. *)
+   statements below speak about the plain model only.
+
+   Round 2: OP, PCTSP (= SPCTSP, field [stoch]) and SDVRP (second half of this file; Compose/PolicyOnEnvs2.v).
+     OP exact / PCTSP exact / SDVRP exact : Env     the models of Env/OP.v, Env/PCTSP.v, Env/SDVRP.v (SDVRP re-uses cvrp_inst
+                                      and cvrp_reward); op_n / pn_of / n_of = number of customers; node 0 is the depot.
+     instance hypotheses              op_wfb j = true (non-negative length limit and eps, zero depot-depot distance);
+                                      pctsp_P j := pctsp_wfb j && (pdfun j 0 0 =? 0);  sdvrp_P j := cvrp_wfb j && (dfun j 0 0 =? 0):
+                                      the hypotheses of C04_<env>_padding_inert, for every batch member.
+     network hypotheses               as for CVRP (row-wise encoder, decoder row-wise on rows reached from reset by
+                                      instances satisfying the instance hypothesis, one logit per node).
+     extra conclusions                the solo and the batched action lists are INSIDE THE MASKS (adm ... = true).
+   How it is proved.  For these environments the padding facts do NOT hold in every state reached from reset: they need
+   the run to stay inside the masks (PCTSP: C14_pctsp_pad_at_nonadmitted_states_refuted -- a finished state with an EMPTY
+   mask; SDVRP: the demand bookkeeping).  C14_policy_rowwise is therefore generalised by a row invariant that holds at
+   reset and is kept by the policy's own steps (Compose/PolicyOnEnvs2.v, policy_rowwise_inv; C14_policy_rowwise is the
+   case "True"), instantiated at [restrict (hist E) P] with the invariant "the history stayed inside the masks" -- kept
+   by greedy because greedy over process_logits takes an offered action (C10 greedy_feasible) and these environments
+   always offer one (C02_<env>_no_dead_end) -- with the padding hypotheses discharged from C04_<env>_padding_inert and
+   C10 (single offered action => probability one), and transported back along the same simulation. *)
 From Coq Require Import ZArith QArith Qcanon List Bool Arith.
 From RL4CO Require Import Base.Num Base.OFieldQc Base.EnvSig Decoding.ProcessLogits Decoding.PLInst Decoding.Rowwise
-                          Env.CVRP Env.CVRPProofs Compose.PolicyOnCVRP.
+                          Env.CVRP Env.CVRPProofs Env.OP Env.OPProofs Env.PCTSP Env.PCTSPProofs Env.SDVRP Env.SDVRPProofs
+                          Compose.PolicyOnCVRP Compose.PolicyOnEnvs2.
 Import ListNotations.
 Local Open Scope nat_scope.
 
@@ -209,3 +228,299 @@ Example C14_ex_in_batch :
     = [(3, (4 # 7)%Q); (0, 1%Q); (2, (2 # 3)%Q); (0, 1%Q); (1, 1%Q)] /\
   all_done (CVRP exact) (snd (bpolicy (CVRP exact) Ex.benc Ex.bnet Ex.gc 20 [Ex.i1; Ex.i2])) = true.
 Proof. exact Ex.cvrp_in_batch. Qed.
+
+(* ==================================================================================================================
+   Round 2: OP, PCTSP, SDVRP (see the second half of the reading guide) *)
+
+(* ------------------------------------------------------------------ OP *)
+(* per-instance inference on OP: row r's actions are those of i decoded alone followed by depot visits, both
+   inside the masks; reward and log-likelihood are those of i decoded alone *)
+Theorem C14_policy_rowwise_on_op :
+  forall (hidden : Type) (clip tmp : Z -> Z) (top_p : Qc) (top_k : nat)
+         (benc : list op_inst -> list hidden) (enc : op_inst -> hidden)
+         (bnet : list hidden -> list (op_inst * op_st) -> list (list Z))
+         (net : hidden -> op_inst * op_st -> list Z),
+    (forall is_ : list op_inst, benc is_ = map enc is_) ->
+    (forall (hs : list hidden) (rows : list (op_inst * op_st)),
+        length hs = length rows ->
+        Forall (fun rw => op_wfb (fst rw) = true /\ exists acts, snd rw = run (E:=OP exact) (fst rw) acts) rows ->
+        bnet hs rows = Rowwise.map2 net hs rows) ->
+    (forall (h : hidden) (i : op_inst) (acts : list nat),
+        op_wfb i = true -> length (net h (i, run (E:=OP exact) i acts)) = S (op_n i)) ->
+    forall (fuel : nat) (is_ : list op_inst) (r : nat) (i : op_inst)
+           (tr : list (list (nat * Qc))) (fin : list (op_inst * op_st)),
+      (forall j, In j is_ -> op_wfb j = true) ->
+      nth_error is_ r = Some i ->
+      bpolicy (OP exact) benc bnet (greedy_choose clip tmp top_p top_k) fuel is_ = (tr, fin) ->
+      all_done (OP exact) fin = true ->
+      let batched := row_traj 1%Qc r tr in
+      let alone := solo (OP exact) enc net (greedy_choose clip tmp top_p top_k) fuel i in
+      exists k : nat,
+        traj_actions batched = traj_actions alone ++ repeat 0 k /\
+        done (OP exact) i (run (E:=OP exact) i (traj_actions alone)) = true /\
+        adm (E:=OP exact) i (traj_actions alone) = true /\ adm (E:=OP exact) i (traj_actions batched) = true /\
+        op_reward i (traj_actions batched) = op_reward i (traj_actions alone) /\
+        traj_ll 1%Qc Qcmult batched = traj_ll 1%Qc Qcmult alone.
+Proof. exact policy_rowwise_on_op. Qed.
+Print Assumptions C14_policy_rowwise_on_op.
+
+Theorem C14_policy_batch_independent_on_op :
+  forall (hidden : Type) (clip tmp : Z -> Z) (top_p : Qc) (top_k : nat)
+         (benc : list op_inst -> list hidden) (enc : op_inst -> hidden)
+         (bnet : list hidden -> list (op_inst * op_st) -> list (list Z))
+         (net : hidden -> op_inst * op_st -> list Z),
+    (forall is_ : list op_inst, benc is_ = map enc is_) ->
+    (forall (hs : list hidden) (rows : list (op_inst * op_st)),
+        length hs = length rows ->
+        Forall (fun rw => op_wfb (fst rw) = true /\ exists acts, snd rw = run (E:=OP exact) (fst rw) acts) rows ->
+        bnet hs rows = Rowwise.map2 net hs rows) ->
+    (forall (h : hidden) (i : op_inst) (acts : list nat),
+        op_wfb i = true -> length (net h (i, run (E:=OP exact) i acts)) = S (op_n i)) ->
+    forall (fuel : nat) (is1 is2 : list op_inst) (r1 r2 : nat) (i : op_inst)
+           (tr1 : list (list (nat * Qc))) (fin1 : list (op_inst * op_st))
+           (tr2 : list (list (nat * Qc))) (fin2 : list (op_inst * op_st)),
+      (forall j, In j is1 -> op_wfb j = true) -> (forall j, In j is2 -> op_wfb j = true) ->
+      nth_error is1 r1 = Some i -> nth_error is2 r2 = Some i ->
+      bpolicy (OP exact) benc bnet (greedy_choose clip tmp top_p top_k) fuel is1 = (tr1, fin1) ->
+      all_done (OP exact) fin1 = true ->
+      bpolicy (OP exact) benc bnet (greedy_choose clip tmp top_p top_k) fuel is2 = (tr2, fin2) ->
+      all_done (OP exact) fin2 = true ->
+      let t1 := row_traj 1%Qc r1 tr1 in let t2 := row_traj 1%Qc r2 tr2 in
+      op_reward i (traj_actions t1) = op_reward i (traj_actions t2) /\
+      traj_ll 1%Qc Qcmult t1 = traj_ll 1%Qc Qcmult t2 /\
+      exists (common : list nat) (k1 k2 : nat),
+        traj_actions t1 = common ++ repeat 0 k1 /\ traj_actions t2 = common ++ repeat 0 k2 /\
+        adm (E:=OP exact) i common = true /\ done (OP exact) i (run (E:=OP exact) i common) = true.
+Proof. exact policy_batch_independent_on_op. Qed.
+Print Assumptions C14_policy_batch_independent_on_op.
+
+(* the hypotheses are satisfiable together: a closed instance (ExOP.net / ExOP.enc of Compose/PolicyOnEnvs2.v) *)
+Theorem C14_ex_policy_rowwise_on_op :
+  forall (fuel : nat) (is_ : list op_inst) (r : nat) (i : op_inst)
+         (tr : list (list (nat * Qc))) (fin : list (op_inst * op_st)),
+    (forall j, In j is_ -> op_wfb j = true) ->
+    nth_error is_ r = Some i ->
+    bpolicy (OP exact) ExOP.benc ExOP.bnet gc2 fuel is_ = (tr, fin) -> all_done (OP exact) fin = true ->
+    let batched := row_traj 1%Qc r tr in
+    let alone := solo (OP exact) ExOP.enc ExOP.rnet gc2 fuel i in
+    exists k : nat,
+      traj_actions batched = traj_actions alone ++ repeat 0 k /\
+      done (OP exact) i (run (E:=OP exact) i (traj_actions alone)) = true /\
+      adm (E:=OP exact) i (traj_actions alone) = true /\ adm (E:=OP exact) i (traj_actions batched) = true /\
+      op_reward i (traj_actions batched) = op_reward i (traj_actions alone) /\
+      traj_ll 1%Qc Qcmult batched = traj_ll 1%Qc Qcmult alone.
+Proof. exact ExOP.ex_policy_rowwise_on_op. Qed.
+Print Assumptions C14_ex_policy_rowwise_on_op.
+
+(* ------------------------------------------------------------------ PCTSP *)
+(* per-instance inference on PCTSP: row r's actions are those of i decoded alone followed by depot visits, both
+   inside the masks; reward and log-likelihood are those of i decoded alone *)
+Theorem C14_policy_rowwise_on_pctsp :
+  forall (hidden : Type) (clip tmp : Z -> Z) (top_p : Qc) (top_k : nat)
+         (benc : list pctsp_inst -> list hidden) (enc : pctsp_inst -> hidden)
+         (bnet : list hidden -> list (pctsp_inst * pctsp_st) -> list (list Z))
+         (net : hidden -> pctsp_inst * pctsp_st -> list Z),
+    (forall is_ : list pctsp_inst, benc is_ = map enc is_) ->
+    (forall (hs : list hidden) (rows : list (pctsp_inst * pctsp_st)),
+        length hs = length rows ->
+        Forall (fun rw => pctsp_P (fst rw) = true /\ exists acts, snd rw = run (E:=PCTSP exact) (fst rw) acts) rows ->
+        bnet hs rows = Rowwise.map2 net hs rows) ->
+    (forall (h : hidden) (i : pctsp_inst) (acts : list nat),
+        pctsp_P i = true -> length (net h (i, run (E:=PCTSP exact) i acts)) = S (pn_of i)) ->
+    forall (fuel : nat) (is_ : list pctsp_inst) (r : nat) (i : pctsp_inst)
+           (tr : list (list (nat * Qc))) (fin : list (pctsp_inst * pctsp_st)),
+      (forall j, In j is_ -> pctsp_P j = true) ->
+      nth_error is_ r = Some i ->
+      bpolicy (PCTSP exact) benc bnet (greedy_choose clip tmp top_p top_k) fuel is_ = (tr, fin) ->
+      all_done (PCTSP exact) fin = true ->
+      let batched := row_traj 1%Qc r tr in
+      let alone := solo (PCTSP exact) enc net (greedy_choose clip tmp top_p top_k) fuel i in
+      exists k : nat,
+        traj_actions batched = traj_actions alone ++ repeat 0 k /\
+        done (PCTSP exact) i (run (E:=PCTSP exact) i (traj_actions alone)) = true /\
+        adm (E:=PCTSP exact) i (traj_actions alone) = true /\ adm (E:=PCTSP exact) i (traj_actions batched) = true /\
+        pctsp_reward i (traj_actions batched) = pctsp_reward i (traj_actions alone) /\
+        traj_ll 1%Qc Qcmult batched = traj_ll 1%Qc Qcmult alone.
+Proof. exact policy_rowwise_on_pctsp. Qed.
+Print Assumptions C14_policy_rowwise_on_pctsp.
+
+Theorem C14_policy_batch_independent_on_pctsp :
+  forall (hidden : Type) (clip tmp : Z -> Z) (top_p : Qc) (top_k : nat)
+         (benc : list pctsp_inst -> list hidden) (enc : pctsp_inst -> hidden)
+         (bnet : list hidden -> list (pctsp_inst * pctsp_st) -> list (list Z))
+         (net : hidden -> pctsp_inst * pctsp_st -> list Z),
+    (forall is_ : list pctsp_inst, benc is_ = map enc is_) ->
+    (forall (hs : list hidden) (rows : list (pctsp_inst * pctsp_st)),
+        length hs = length rows ->
+        Forall (fun rw => pctsp_P (fst rw) = true /\ exists acts, snd rw = run (E:=PCTSP exact) (fst rw) acts) rows ->
+        bnet hs rows = Rowwise.map2 net hs rows) ->
+    (forall (h : hidden) (i : pctsp_inst) (acts : list nat),
+        pctsp_P i = true -> length (net h (i, run (E:=PCTSP exact) i acts)) = S (pn_of i)) ->
+    forall (fuel : nat) (is1 is2 : list pctsp_inst) (r1 r2 : nat) (i : pctsp_inst)
+           (tr1 : list (list (nat * Qc))) (fin1 : list (pctsp_inst * pctsp_st))
+           (tr2 : list (list (nat * Qc))) (fin2 : list (pctsp_inst * pctsp_st)),
+      (forall j, In j is1 -> pctsp_P j = true) -> (forall j, In j is2 -> pctsp_P j = true) ->
+      nth_error is1 r1 = Some i -> nth_error is2 r2 = Some i ->
+      bpolicy (PCTSP exact) benc bnet (greedy_choose clip tmp top_p top_k) fuel is1 = (tr1, fin1) ->
+      all_done (PCTSP exact) fin1 = true ->
+      bpolicy (PCTSP exact) benc bnet (greedy_choose clip tmp top_p top_k) fuel is2 = (tr2, fin2) ->
+      all_done (PCTSP exact) fin2 = true ->
+      let t1 := row_traj 1%Qc r1 tr1 in let t2 := row_traj 1%Qc r2 tr2 in
+      pctsp_reward i (traj_actions t1) = pctsp_reward i (traj_actions t2) /\
+      traj_ll 1%Qc Qcmult t1 = traj_ll 1%Qc Qcmult t2 /\
+      exists (common : list nat) (k1 k2 : nat),
+        traj_actions t1 = common ++ repeat 0 k1 /\ traj_actions t2 = common ++ repeat 0 k2 /\
+        adm (E:=PCTSP exact) i common = true /\ done (PCTSP exact) i (run (E:=PCTSP exact) i common) = true.
+Proof. exact policy_batch_independent_on_pctsp. Qed.
+Print Assumptions C14_policy_batch_independent_on_pctsp.
+
+(* the hypotheses are satisfiable together: a closed instance (ExPC.net / ExPC.enc of Compose/PolicyOnEnvs2.v) *)
+Theorem C14_ex_policy_rowwise_on_pctsp :
+  forall (fuel : nat) (is_ : list pctsp_inst) (r : nat) (i : pctsp_inst)
+         (tr : list (list (nat * Qc))) (fin : list (pctsp_inst * pctsp_st)),
+    (forall j, In j is_ -> pctsp_P j = true) ->
+    nth_error is_ r = Some i ->
+    bpolicy (PCTSP exact) ExPC.benc ExPC.bnet gc2 fuel is_ = (tr, fin) -> all_done (PCTSP exact) fin = true ->
+    let batched := row_traj 1%Qc r tr in
+    let alone := solo (PCTSP exact) ExPC.enc ExPC.rnet gc2 fuel i in
+    exists k : nat,
+      traj_actions batched = traj_actions alone ++ repeat 0 k /\
+      done (PCTSP exact) i (run (E:=PCTSP exact) i (traj_actions alone)) = true /\
+      adm (E:=PCTSP exact) i (traj_actions alone) = true /\ adm (E:=PCTSP exact) i (traj_actions batched) = true /\
+      pctsp_reward i (traj_actions batched) = pctsp_reward i (traj_actions alone) /\
+      traj_ll 1%Qc Qcmult batched = traj_ll 1%Qc Qcmult alone.
+Proof. exact ExPC.ex_policy_rowwise_on_pctsp. Qed.
+Print Assumptions C14_ex_policy_rowwise_on_pctsp.
+
+(* ------------------------------------------------------------------ SDVRP *)
+(* per-instance inference on SDVRP: row r's actions are those of i decoded alone followed by depot visits, both
+   inside the masks; reward and log-likelihood are those of i decoded alone *)
+Theorem C14_policy_rowwise_on_sdvrp :
+  forall (hidden : Type) (clip tmp : Z -> Z) (top_p : Qc) (top_k : nat)
+         (benc : list cvrp_inst -> list hidden) (enc : cvrp_inst -> hidden)
+         (bnet : list hidden -> list (cvrp_inst * sd_st) -> list (list Z))
+         (net : hidden -> cvrp_inst * sd_st -> list Z),
+    (forall is_ : list cvrp_inst, benc is_ = map enc is_) ->
+    (forall (hs : list hidden) (rows : list (cvrp_inst * sd_st)),
+        length hs = length rows ->
+        Forall (fun rw => sdvrp_P (fst rw) = true /\ exists acts, snd rw = run (E:=SDVRP exact) (fst rw) acts) rows ->
+        bnet hs rows = Rowwise.map2 net hs rows) ->
+    (forall (h : hidden) (i : cvrp_inst) (acts : list nat),
+        sdvrp_P i = true -> length (net h (i, run (E:=SDVRP exact) i acts)) = S (n_of i)) ->
+    forall (fuel : nat) (is_ : list cvrp_inst) (r : nat) (i : cvrp_inst)
+           (tr : list (list (nat * Qc))) (fin : list (cvrp_inst * sd_st)),
+      (forall j, In j is_ -> sdvrp_P j = true) ->
+      nth_error is_ r = Some i ->
+      bpolicy (SDVRP exact) benc bnet (greedy_choose clip tmp top_p top_k) fuel is_ = (tr, fin) ->
+      all_done (SDVRP exact) fin = true ->
+      let batched := row_traj 1%Qc r tr in
+      let alone := solo (SDVRP exact) enc net (greedy_choose clip tmp top_p top_k) fuel i in
+      exists k : nat,
+        traj_actions batched = traj_actions alone ++ repeat 0 k /\
+        done (SDVRP exact) i (run (E:=SDVRP exact) i (traj_actions alone)) = true /\
+        adm (E:=SDVRP exact) i (traj_actions alone) = true /\ adm (E:=SDVRP exact) i (traj_actions batched) = true /\
+        cvrp_reward i (traj_actions batched) = cvrp_reward i (traj_actions alone) /\
+        traj_ll 1%Qc Qcmult batched = traj_ll 1%Qc Qcmult alone.
+Proof. exact policy_rowwise_on_sdvrp. Qed.
+Print Assumptions C14_policy_rowwise_on_sdvrp.
+
+Theorem C14_policy_batch_independent_on_sdvrp :
+  forall (hidden : Type) (clip tmp : Z -> Z) (top_p : Qc) (top_k : nat)
+         (benc : list cvrp_inst -> list hidden) (enc : cvrp_inst -> hidden)
+         (bnet : list hidden -> list (cvrp_inst * sd_st) -> list (list Z))
+         (net : hidden -> cvrp_inst * sd_st -> list Z),
+    (forall is_ : list cvrp_inst, benc is_ = map enc is_) ->
+    (forall (hs : list hidden) (rows : list (cvrp_inst * sd_st)),
+        length hs = length rows ->
+        Forall (fun rw => sdvrp_P (fst rw) = true /\ exists acts, snd rw = run (E:=SDVRP exact) (fst rw) acts) rows ->
+        bnet hs rows = Rowwise.map2 net hs rows) ->
+    (forall (h : hidden) (i : cvrp_inst) (acts : list nat),
+        sdvrp_P i = true -> length (net h (i, run (E:=SDVRP exact) i acts)) = S (n_of i)) ->
+    forall (fuel : nat) (is1 is2 : list cvrp_inst) (r1 r2 : nat) (i : cvrp_inst)
+           (tr1 : list (list (nat * Qc))) (fin1 : list (cvrp_inst * sd_st))
+           (tr2 : list (list (nat * Qc))) (fin2 : list (cvrp_inst * sd_st)),
+      (forall j, In j is1 -> sdvrp_P j = true) -> (forall j, In j is2 -> sdvrp_P j = true) ->
+      nth_error is1 r1 = Some i -> nth_error is2 r2 = Some i ->
+      bpolicy (SDVRP exact) benc bnet (greedy_choose clip tmp top_p top_k) fuel is1 = (tr1, fin1) ->
+      all_done (SDVRP exact) fin1 = true ->
+      bpolicy (SDVRP exact) benc bnet (greedy_choose clip tmp top_p top_k) fuel is2 = (tr2, fin2) ->
+      all_done (SDVRP exact) fin2 = true ->
+      let t1 := row_traj 1%Qc r1 tr1 in let t2 := row_traj 1%Qc r2 tr2 in
+      cvrp_reward i (traj_actions t1) = cvrp_reward i (traj_actions t2) /\
+      traj_ll 1%Qc Qcmult t1 = traj_ll 1%Qc Qcmult t2 /\
+      exists (common : list nat) (k1 k2 : nat),
+        traj_actions t1 = common ++ repeat 0 k1 /\ traj_actions t2 = common ++ repeat 0 k2 /\
+        adm (E:=SDVRP exact) i common = true /\ done (SDVRP exact) i (run (E:=SDVRP exact) i common) = true.
+Proof. exact policy_batch_independent_on_sdvrp. Qed.
+Print Assumptions C14_policy_batch_independent_on_sdvrp.
+
+(* the hypotheses are satisfiable together: a closed instance (ExSD.net / ExSD.enc of Compose/PolicyOnEnvs2.v) *)
+Theorem C14_ex_policy_rowwise_on_sdvrp :
+  forall (fuel : nat) (is_ : list cvrp_inst) (r : nat) (i : cvrp_inst)
+         (tr : list (list (nat * Qc))) (fin : list (cvrp_inst * sd_st)),
+    (forall j, In j is_ -> sdvrp_P j = true) ->
+    nth_error is_ r = Some i ->
+    bpolicy (SDVRP exact) ExSD.benc ExSD.bnet gc2 fuel is_ = (tr, fin) -> all_done (SDVRP exact) fin = true ->
+    let batched := row_traj 1%Qc r tr in
+    let alone := solo (SDVRP exact) ExSD.enc ExSD.rnet gc2 fuel i in
+    exists k : nat,
+      traj_actions batched = traj_actions alone ++ repeat 0 k /\
+      done (SDVRP exact) i (run (E:=SDVRP exact) i (traj_actions alone)) = true /\
+      adm (E:=SDVRP exact) i (traj_actions alone) = true /\ adm (E:=SDVRP exact) i (traj_actions batched) = true /\
+      cvrp_reward i (traj_actions batched) = cvrp_reward i (traj_actions alone) /\
+      traj_ll 1%Qc Qcmult batched = traj_ll 1%Qc Qcmult alone.
+Proof. exact ExSD.ex_policy_rowwise_on_sdvrp. Qed.
+Print Assumptions C14_ex_policy_rowwise_on_sdvrp.
+
+(* why the row invariant is needed: for PCTSP the padding hypotheses fail at a finished state reached by a run that left
+   the masks (depot visited while masked): the mask is EMPTY and the "chosen" action has probability 0, not 1.  Every
+   history environment contains this state; no greedy row reaches it *)
+Theorem C14_pctsp_pad_at_nonadmitted_states_refuted :
+  exists (i : pctsp_inst) (acts : list nat),
+    pctsp_P i = true /\ adm (E:=PCTSP exact) i acts = false /\
+    done (PCTSP exact) i (run (E:=PCTSP exact) i acts) = true /\
+    mask (PCTSP exact) i (run (E:=PCTSP exact) i acts) = [false; false; false; false] /\
+    snd (greedy_choose (fun z => z) (fun z => z) 0%Qc 0 [0; 0; 0; 0]%Z
+           (mask (PCTSP exact) i (run (E:=PCTSP exact) i acts))) <> 1%Qc.
+Proof. exact pctsp_nonadmitted_done_state_refutes_pad. Qed.
+Print Assumptions C14_pctsp_pad_at_nonadmitted_states_refuted.
+
+(* ------------------------------------------------------------------ examples (by computation): per environment,
+   instance i1 alone and at position 0 of the batch [i1; i2] -- the same steps, then depot visits of probability 1 *)
+Example C14_ex_op :
+  op_wfb ExOP.i1 = true /\ op_wfb ExOP.i2 = true /\
+  rview2 0 (fst (bpolicy (OP exact) ExOP.benc ExOP.bnet gc2 20 [ExOP.i1])) = [(1, (16 # 19)%Q); (0, 1%Q)] /\
+  rview2 0 (fst (bpolicy (OP exact) ExOP.benc ExOP.bnet gc2 20 [ExOP.i1; ExOP.i2]))
+    = [(1, (16 # 19)%Q); (0, 1%Q); (0, 1%Q); (0, 1%Q)] /\
+  rview2 1 (fst (bpolicy (OP exact) ExOP.benc ExOP.bnet gc2 20 [ExOP.i1; ExOP.i2]))
+    = [(2, (16 # 27)%Q); (3, (8 # 11)%Q); (1, (4 # 5)%Q); (0, 1%Q)] /\
+  all_done (OP exact) (snd (bpolicy (OP exact) ExOP.benc ExOP.bnet gc2 20 [ExOP.i1; ExOP.i2])) = true.
+Proof.
+  split; [exact (proj1 ExOP.instances_wf)|]. split; [exact (proj1 (proj2 ExOP.instances_wf))|].
+  split; [exact ExOP.alone | exact ExOP.in_batch].
+Qed.
+Example C14_ex_pctsp :
+  pctsp_P ExPC.i1 = true /\ pctsp_P ExPC.i2 = true /\
+  rview2 0 (fst (bpolicy (PCTSP exact) ExPC.benc ExPC.bnet gc2 20 [ExPC.i1]))
+    = [(2, (8 # 13)%Q); (3, (4 # 5)%Q); (0, (16 # 17)%Q)] /\
+  rview2 0 (fst (bpolicy (PCTSP exact) ExPC.benc ExPC.bnet gc2 20 [ExPC.i1; ExPC.i2]))
+    = [(2, (8 # 13)%Q); (3, (4 # 5)%Q); (0, (16 # 17)%Q); (0, 1%Q)] /\
+  rview2 1 (fst (bpolicy (PCTSP exact) ExPC.benc ExPC.bnet gc2 20 [ExPC.i1; ExPC.i2]))
+    = [(2, (8 # 13)%Q); (3, (4 # 5)%Q); (1, 1%Q); (0, 1%Q)] /\
+  all_done (PCTSP exact) (snd (bpolicy (PCTSP exact) ExPC.benc ExPC.bnet gc2 20 [ExPC.i1; ExPC.i2])) = true.
+Proof.
+  split; [exact (proj1 ExPC.instances_wf)|]. split; [exact (proj1 (proj2 ExPC.instances_wf))|].
+  split; [exact ExPC.alone | exact ExPC.in_batch].
+Qed.
+Example C14_ex_sdvrp :
+  sdvrp_P ExSD.i1 = true /\ sdvrp_P ExSD.i2 = true /\
+  rview2 0 (fst (bpolicy (SDVRP exact) ExSD.benc ExSD.bnet gc2 20 [ExSD.i1])) = [(2, (2 # 3)%Q); (1, (4 # 5)%Q)] /\
+  rview2 0 (fst (bpolicy (SDVRP exact) ExSD.benc ExSD.bnet gc2 20 [ExSD.i1; ExSD.i2]))
+    = [(2, (2 # 3)%Q); (1, (4 # 5)%Q); (0, 1%Q); (0, 1%Q)] /\
+  rview2 1 (fst (bpolicy (SDVRP exact) ExSD.benc ExSD.bnet gc2 20 [ExSD.i1; ExSD.i2]))
+    = [(2, (2 # 3)%Q); (1, (8 # 9)%Q); (0, 1%Q); (1, 1%Q)] /\
+  all_done (SDVRP exact) (snd (bpolicy (SDVRP exact) ExSD.benc ExSD.bnet gc2 20 [ExSD.i1; ExSD.i2])) = true.
+Proof.
+  split; [exact (proj1 ExSD.instances_wf)|]. split; [exact (proj1 (proj2 ExSD.instances_wf))|].
+  split; [exact ExSD.alone | exact ExSD.in_batch].
+Qed.
